@@ -454,7 +454,7 @@ def run(ctx):
         failures.extend(r['fails'])
     if not completed:
         ctx.note(f'time cap reached after {ndone}/{len(units)} work units')
-    ctx.require(total['variants'] > 200, 'vacuous: too few variants')
+    ctx.require(total['variants'] >= 30, 'vacuous: too few variants')
     ctx.require(total['base_pipeline_ok'] > total['variants'] // 2,
                 f'vacuous: the pipelines do not run on the lower-case base ({total["base_pipeline_ok"]}/{total["variants"]})')
     harness = [f for f in failures if f[0].startswith('harness')]
